@@ -275,35 +275,8 @@ Definition mig_ok (c : case_C20) : bool :=
 Definition holds_C20 (c : case_C20) : bool := forallb (gate_ok c) (c20_gate c) && mig_ok c.
 Definition violation_C20 (c : case_C20) : bool := negb (holds_C20 c).
 
-(* ------------------------------------------------------------------ known finding F17
-   classifier over the INPUT only: a legacy (signac.rc, version <= 1) project whose configured
-   custom workspace directory does not exist, and no 'workspace' entry exists either. *)
-Definition known_case_C20 (c : case_C20) : bool :=
-  match proj_phys c with
-  | None => false
-  | Some ph =>
-    match get (c20_tree c) (skipn (List.length (base_comps (c20_base c))) ph) with
-    | Some pre =>
-        match layout_of pre, declared (layout_of pre) with
-        | LV1 c0, Some v =>
-            Z.leb 0 v && Z.ltb v SCHEMA
-            && match cws c0 with
-               | Some w =>
-                   negb (str_eqb w s_workspace)
-                   && match get pre [s_workspace] with None => true | Some _ => false end
-                   && match get pre (wcomps w) with None => true | Some _ => false end
-               | None => false
-               end
-        | _, _ => false
-        end
-    | None => false
-    end
-  end.
-
 Definition mismatches_C20 (cs : list case_C20) : list N := indices_where mismatch_C20 cs.
 Definition violations_C20 (cs : list case_C20) : list N := indices_where violation_C20 cs.
-Definition known_C20 (cs : list case_C20) : list N :=
-  map (fun i => (i * 100 + 1)%N) (indices_where known_case_C20 cs).
 
 (* debugging aids *)
 Definition bad_gates (c : case_C20) : list N := indices_where (fun g => negb (agree_g c g)) (c20_gate c).
